@@ -42,7 +42,7 @@ ADDED = {
     "C16": "vector fields made isotropic in place (anis, equal length list) on stored / passed positions; one request per stencil offset far from the origin; settings handed through set_generator; vector fields stored on meshio points / cell blocks (mesh_vectors); requests up to 140000 points; SRFs reused after in-place dim / len_scale / mode_no changes.",
     "C17": "internal dimension 4; calls on stored positions when a request repeats; period arrays re-used by the caller; length units of 1e-6.",
     "C18": "error budget of the limit formula inside the lmbda switch, lmbda down to 1e-300; trend assigned through the property; identity applied as processed transformation to scalar and vector fields; shift-only fits of BoxCoxShift; anisotropic rotated models in the pipeline sub-check; per-object default normalizer instances; SRF variance upscaling with point volumes.",
-    "C19": "target intervals in small units / narrow far from zero; a single given moment (mean or variance); process=False with keep_mean=False as a fourth processing mode; the source field stays unchanged.",
+    "C19": "target intervals in small units / narrow far from zero; a single given moment (mean or variance); process=False with keep_mean=False as a fourth processing mode; the source field stays unchanged; for thresholds='equal' field values on either side of every documented class boundary.",
     "C20": "masked conditioning values of kriging; lat-lon lags beyond half the circumference in the fitting entry; model parameter arrays (constructor / setters), unsorted ndarray class values and thresholds, out-of-domain normalizer data, CondSRF store variants with and without nugget, the public get_scaling helper.",
 }
 
